@@ -308,6 +308,17 @@ Example raft_monitor_install_between_snapshot_and_persist_tagged :
              OObs 1 (Some [wpin 0 1; wpin 1 1; wpin 2 1])] in
   model_eqb 2 cmds es = true /\ trace_guard 2 cmds es = false /\ spec_okb 2 cmds es = false /\ tag_of cmds es = 3.
 Proof. repeat split; vm_compute; reflexivity. Qed.
+(* the store of a replica holds what was installed on it: OfflineState of a follower that never took a snapshot itself is the
+   replay of the prefix the installed snapshot is labelled with; and of a replica that persisted label 1 and was then sent label 2,
+   the newest of its store, label 2 *)
+Example raft_offline_of_installed_snapshot :
+  let es1 := [OCommit 0; OApply 0 0; OSnapReq 0 true; OPersist 0; ORestore 1 0 0 1; OOffline 1 [wpin 0 1]] in
+  let es2 := [OCommit 0; OApply 0 0; OApply 1 0; OSnapReq 1 true; OPersist 1; OCommit 1; OApply 0 1; OSnapReq 0 true; OPersist 0;
+              ORestore 1 0 0 2; OOffline 1 [wpin 0 1; wpin 1 1]; OOffline 0 [wpin 0 1; wpin 1 1]] in
+  (model_eqb 2 monitor_demo_cmds es1 = true /\ spec_okb 2 monitor_demo_cmds es1 = true /\
+   spec_okb 2 monitor_demo_cmds [OCommit 0; OApply 0 0; OSnapReq 0 true; OPersist 0; ORestore 1 0 0 1; OOffline 1 []] = false) /\
+  (model_eqb 2 monitor_demo_cmds es2 = true /\ spec_okb 2 monitor_demo_cmds es2 = true).
+Proof. repeat split; vm_compute; reflexivity. Qed.
 (* the recogniser looks at the shape only: a late snapshot that nobody restores or reads is not flagged, and the trace passes *)
 Example raft_late_snapshot_unused_passes :
   let es := [OCommit 0; OApply 0 0; OSnapReq 0 true; OCommit 1; OApply 0 1; OPersist 0; OObs 0 (Some [wpin 0 1; wpin 1 1])] in
